@@ -743,9 +743,15 @@ class Server(BaseComponent):
 
     @handler('_write', priority=1)
     def _on_write(self, sock):
+        if sock not in self._clients:
+            return
+
         if self._buffers[sock]:
             data = self._buffers[sock].popleft()
             self._write(sock, data)
+            if sock not in self._clients:
+                # the send failed and the connection has been closed
+                return
 
         if not self._buffers[sock]:
             if sock in self._closeq:
